@@ -36,6 +36,7 @@ type TimeThresholdGator struct {
 func NewTimeThresholdGator(threshold time.Duration, opts ...GateOption) *TimeThresholdGator {
 	g := &TimeThresholdGator{
 		threshold: threshold,
+		logger:    zlog,
 	}
 
 	for _, opt := range opts {
@@ -73,6 +74,7 @@ type BlockNumberGator struct {
 func NewBlockNumberGator(blockNum uint64, opts ...GateOption) *BlockNumberGator {
 	g := &BlockNumberGator{
 		blockNum: blockNum,
+		logger:   zlog,
 	}
 
 	for _, opt := range opts {
@@ -86,6 +88,7 @@ func NewExclusiveBlockNumberGator(blockNum uint64, opts ...GateOption) *BlockNum
 	g := &BlockNumberGator{
 		blockNum:  blockNum,
 		exclusive: true,
+		logger:    zlog,
 	}
 
 	for _, opt := range opts {
